@@ -39,7 +39,10 @@ pub enum Token {
 
 pub fn tokenize_expression(input: &str) -> Result<Vec<Token>, CompilerError> {
     let mut tokens = Vec::new();
+    // `index` counts characters, not bytes: text is always taken out of `chars`, never
+    // sliced out of `input`, so that what follows an accented letter is read where it is.
     let chars: Vec<char> = input.chars().collect();
+    let text_between = |start: usize, end: usize| chars[start..end].iter().collect::<String>();
     let mut index = 0;
 
     while index < chars.len() {
@@ -50,8 +53,8 @@ pub fn tokenize_expression(input: &str) -> Result<Vec<Token>, CompilerError> {
         }
 
         if ch == '-' && chars.get(index + 1) == Some(&'>') {
-            let rest = input[index + 2..].trim_start();
-            let parsed = parse_path_identifier(rest).ok_or_else(|| {
+            let rest = text_between(index + 2, chars.len());
+            let parsed = parse_path_identifier(rest.trim_start()).ok_or_else(|| {
                 CompilerError::invalid_source("expected divert target after '->'".to_owned())
             })?;
             tokens.push(Token::DivertTarget(parsed.to_owned()));
@@ -60,7 +63,7 @@ pub fn tokenize_expression(input: &str) -> Result<Vec<Token>, CompilerError> {
             while index < chars.len() && chars[index].is_whitespace() {
                 index += 1;
             }
-            index += parsed.len(); // skip the target name
+            index += parsed.chars().count(); // skip the target name
             continue;
         }
 
@@ -186,16 +189,16 @@ pub fn tokenize_expression(input: &str) -> Result<Vec<Token>, CompilerError> {
                     }
                     index += 1;
                 }
-                let token_text = &input[start..index];
+                let token_text = text_between(start, index);
                 if saw_identifier_tail {
-                    tokens.push(Token::Ident(token_text.to_owned()));
+                    tokens.push(Token::Ident(token_text));
                 } else if saw_dot {
-                    let value = input[start..index].parse::<f32>().map_err(|error| {
+                    let value = token_text.parse::<f32>().map_err(|error| {
                         CompilerError::invalid_source(format!("invalid float literal: {error}"))
                     })?;
                     tokens.push(Token::Float(value));
                 } else {
-                    let value = input[start..index].parse::<i32>().map_err(|error| {
+                    let value = token_text.parse::<i32>().map_err(|error| {
                         CompilerError::invalid_source(format!("invalid integer literal: {error}"))
                     })?;
                     tokens.push(Token::Int(value));
@@ -209,8 +212,8 @@ pub fn tokenize_expression(input: &str) -> Result<Vec<Token>, CompilerError> {
                 {
                     index += 1;
                 }
-                let ident = &input[start..index];
-                match ident {
+                let ident = text_between(start, index);
+                match ident.as_str() {
                     "true" => tokens.push(Token::Bool(true)),
                     "false" => tokens.push(Token::Bool(false)),
                     "and" => tokens.push(Token::AndAnd),
@@ -218,7 +221,7 @@ pub fn tokenize_expression(input: &str) -> Result<Vec<Token>, CompilerError> {
                     "not" => tokens.push(Token::Bang),
                     "has" => tokens.push(Token::Has),
                     "hasnt" => tokens.push(Token::Hasnt),
-                    _ => tokens.push(Token::Ident(ident.to_owned())),
+                    _ => tokens.push(Token::Ident(ident)),
                 }
             }
             _ => {
@@ -301,16 +304,15 @@ pub fn split_top_level_commas(input: &str) -> Vec<&str> {
     let mut start = 0;
     let mut depth = 0;
     let mut in_string = false;
-    let chars: Vec<char> = input.chars().collect();
 
-    for (index, ch) in chars.iter().enumerate() {
+    for (index, ch) in input.char_indices() {
         match ch {
             '"' => in_string = !in_string,
             '(' if !in_string => depth += 1,
             ')' if !in_string => depth -= 1,
             ',' if !in_string && depth == 0 => {
                 parts.push(input[start..index].trim());
-                start = index + 1;
+                start = index + ch.len_utf8();
             }
             _ => {}
         }
